@@ -64,10 +64,10 @@ func TestNum(t *testing.T) {
 			n++
 		}
 		for _, b := range vals {
-			if rng.Intn(3) != 0 { continue }
+			if rng.Intn(6) != 0 { continue }
 			ia, ib := int32(toInt32(a)), int32(toInt32(b))
 			sh := uint32(toUint32(b)) & 31
-			bin := map[string]float64{"add": a + b, "sub": a - b, "mul": a * b, "div": a / b,
+			bin := map[string]float64{"add": a + b, "sub": a - b, "mul": a * b, "div": a / b, "mod": math.Mod(a, b),
 				"and": float64(ia & ib), "or": float64(ia | ib), "xor": float64(ia ^ ib),
 				"shl": float64(ia << sh), "shr": float64(ia >> sh), "shru": float64(uint32(toUint32(a)) >> sh),
 				"lt": bf(a < b), "eq": bf(a == b)}
